@@ -52,3 +52,21 @@ Example C03_tree_terminated_nonvacuous :
   let tx := TAlt sp [TCat sp [TLeaf sp (LTree false); TLeaf sp (LLit false [116%N]); TLeaf sp (LTree true)]] in
   wf_tok tx = true /\ trees_exact tx = true /\ ends_tree tx = true.
 Proof. cbv zeta. repeat split; vm_compute; reflexivity. Qed.
+
+From WaxModel Require Import Variance Fold Query.
+From WaxProofs Require Import AlgebraFacts NegationFacts.
+
+(* what "matches the negation" means: the two programs a negation is compiled into (the alternatives of the pattern, split by
+   their exhaustiveness verdict, each part recombined with `any`) match together exactly what the negated pattern matches -
+   at the level of the documented language, for every pattern whose alternatives have ordered bounds (all built globs);
+   includes the adequacy of the fuel of the alternatives queue *)
+Theorem C03_negation_programs_match_the_pattern : forall orbit t ext nxt w,
+  Forall tok_bounds_ok (into_alternatives t) -> not_partition t = Ok (ext, nxt) ->
+  ((opt_lang orbit ext w \/ opt_lang orbit nxt w) <-> Lang orbit t w).
+Proof. exact not_partition_lang. Qed.
+Print Assumptions C03_negation_programs_match_the_pattern.
+
+Theorem C03_alternatives_cover_the_pattern : forall orbit t w,
+  (exists a, In a (into_alternatives t) /\ Lang orbit a w) <-> Lang orbit t w.
+Proof. exact into_alternatives_lang. Qed.
+Print Assumptions C03_alternatives_cover_the_pattern.
